@@ -146,6 +146,24 @@ class Source:
                 return self._fn_at(kw, name)
         raise ParseError("fn %s%s not found in %s" % ((container + "::") if container else "", name, self.path))
 
+    def impl_fn_names(self, container, trait=None):
+        """names of the fns defined directly in impl `container` (all its inherent impl blocks, or its impl of `trait`), in order;
+        fns under #[cfg(test)] are skipped"""
+        out = []
+        for lo, hi in self.impl_body(container, trait):
+            for m in re.finditer(r"\bfn\s+(\w+)\b", self.masked[lo + 1:hi]):
+                kw = lo + 1 + m.start()
+                if not self._depth0(lo + 1, hi, kw):
+                    continue
+                # attributes right above the fn
+                ls = line_start(self.text, kw)
+                above = self.text[max(lo, ls - 200):ls]
+                if re.search(r"#\[cfg\(test\)\]\s*$", above):
+                    continue
+                if m.group(1) not in out:
+                    out.append(m.group(1))
+        return out
+
     def _fn_at(self, kw, name):
         masked = self.masked
         # start of item: walk back over qualifiers on the same line
